@@ -5,6 +5,7 @@ package main
 
 import (
 	"bufio"
+	"encoding/binary"
 	"encoding/hex"
 	"fmt"
 	"os"
@@ -114,6 +115,34 @@ func codecExec(args []string) (res string) {
 			return "err"
 		}
 		return fmt.Sprintf("%d n=%d", u, n)
+	case "lrootval":
+		// a legacy-format store with one version whose root hash is the given 32 bytes: root record
+		// r<version> = hash, node record n<hash> = a legacy leaf. Whatever the bytes of the hash are (its first
+		// byte may equal a key-space prefix), the store must load and the leaf must be read.
+		if len(bz) != 32 {
+			return "bad"
+		}
+		db := idb.NewMemDB()
+		var rec []byte
+		var tmp [binary.MaxVarintLen64]byte
+		for _, x := range []int64{0, 1, 1} { // height, size, version
+			rec = append(rec, tmp[:binary.PutVarint(tmp[:], x)]...)
+		}
+		rec = append(rec, 1, 'k') // key
+		rec = append(rec, 1, 'v') // value
+		db.Set(append([]byte{'n'}, bz...), rec)
+		db.Set([]byte{'r', 0, 0, 0, 0, 0, 0, 0, 1}, bz)
+		t := iavl.NewMutableTree(db, 0, true, iavl.NewNopLogger())
+		v, err := t.Load()
+		if err != nil {
+			return "err:load"
+		}
+		val, err := t.Get([]byte("k"))
+		if err != nil {
+			return "err:get"
+		}
+		t.Close()
+		return fmt.Sprintf("ok ver=%d val=%s", v, enc(val))
 	case "rootval":
 		// an arbitrary value stored under the root key of version 1, plus a node key it may refer to
 		db := idb.NewMemDB()
